@@ -21,6 +21,7 @@ Known Caveats:
 .. _RFC9176: https://datatracker.ietf.org/doc/html/rfc9176
 """
 
+import re
 import string
 import sys
 import logging
@@ -51,6 +52,10 @@ from aiocoap.util.linkformat import Link, LinkFormat, parse
 from ..util.linkformat import link_header
 
 IMMUTABLE_PARAMETERS = ("ep", "d", "proxy")
+
+# Registration parameters are shown as link attributes in the endpoint lookup,
+# so their names need to be a parmname of RFC 6690
+_PARMNAME = re.compile(r"[A-Za-z0-9!#$&+\-.^_`|~]+")
 
 
 class NoActiveRegistration(error.ConstructionRenderableError):
@@ -170,6 +175,11 @@ class CommonRD:
                 for k in registration_parameters.keys()
             ):
                 raise error.BadRequest("Unsuitable parameter for registration")
+
+            if any(
+                not _PARMNAME.fullmatch(k) for k in registration_parameters.keys()
+            ):
+                raise error.BadRequest("Parameter name unsuitable for link-format")
 
             if (
                 is_initial or not self.base_is_explicit
